@@ -16,11 +16,12 @@ class Speller(object):
         self.r, self.ver3 = rnd, ver3
 
     def digits(self, s):
+        # digits := digit (digit | "_")* : separators may repeat and may end the run, never start it
         out = []
         for i, ch in enumerate(s):
             out.append(ch)
-            if i < len(s) - 1 and self.r.random() < 0.15:
-                out.append('_')
+            if self.r.random() < 0.15:
+                out.append('_' * self.r.choice([1, 1, 2]))
         return ''.join(out)
 
     def number(self, x):
